@@ -171,7 +171,7 @@ def run_query(q, shape, scratch_root, tier):
         entry = q['entry']
         a_gb = os.path.join(sdir, 'a.gb')
         b_gb = os.path.join(sdir, 'b.gb')
-        cc = ['goto-cc', '-DKV_CBMC', '-DKALIGN_VERIF'] + VERSION_DEFS + q.get('defs', []) + shape_defs(shape) + include_flags(tree) + \
+        cc = ['goto-cc', '-DKV_CBMC', '-DKALIGN_VERIF', '-D__NO_CTYPE'] + VERSION_DEFS + q.get('defs', []) + shape_defs(shape) + include_flags(tree) + \
              ['--function', entry, harness, '-o', a_gb]
         r.cmds.append(' '.join(cc))
         rc, out, err, _ = sh(cc, timeout=300)
@@ -190,6 +190,8 @@ def run_query(q, shape, scratch_root, tier):
             if q.get('loop_contracts', False):
                 gi += ['--apply-loop-contracts']
             gi += q.get('gi_flags', [])
+            if not q.get('malloc_may_fail', False):
+                gi += ['--no-malloc-may-fail']
             gi += [a_gb, b_gb]
             r.cmds.append(' '.join(gi))
             rc, out, err, _ = sh(gi, timeout=600)
